@@ -1,6 +1,7 @@
 ----------------------------- MODULE Universes -----------------------------
 (* Path universes (bytewise sorted, "." first) and parent maps of the      *)
 (* RecvScen scenario families                                              *)
+LOCAL INSTANCE TLC          \* :> and @@
 U12 == <<".", "a", "f", "z">>
 P12 == [p \in {".", "a", "f", "z"} |-> "."]
 U10 == <<".", "d", "d/f", "f", "l", "s", "x", "x/f", "y">>
@@ -23,6 +24,10 @@ P01 == [p \in {".", "a", "b", "d", "d-", "d/a"} |-> IF p = "d/a" THEN "d" ELSE "
 (* C15 index agreement: walk order differs from bytewise order ("data/inner" vs "data-old", "data.txt"; names below ".") *)
 U15 == <<"+p", "-d", ".", ".h", "Z", "a b", "data", "data-old", "data.txt", "data/inner">>
 P15 == [p \in {"+p", "-d", ".", ".h", "Z", "a b", "data", "data-old", "data.txt", "data/inner"} |-> IF p = "data/inner" THEN "data" ELSE "."]
+(* C18, concurrent sessions: the tree every session of the concurrency harness transfers (conc.go) *)
+Uconc == <<".", "d", "d/e", "d/e/h02", "d/e/h05", "d/e/h08", "d/e/h11", "d/e/h14", "d/e/h17", "d/e/h20", "d/e/h23", "d/g01", "d/g04", "d/g07", "d/g10", "d/g13", "d/g16", "d/g19", "d/g22", "f00", "f03", "f06", "f09", "f12", "f15", "f18", "f21", "lnk">>
+Pconc == "." :> "." @@ "d" :> "." @@ "d/e" :> "d" @@ "d/e/h02" :> "d/e" @@ "d/e/h05" :> "d/e" @@ "d/e/h08" :> "d/e" @@ "d/e/h11" :> "d/e" @@ "d/e/h14" :> "d/e" @@ "d/e/h17" :> "d/e" @@ "d/e/h20" :> "d/e" @@ "d/e/h23" :> "d/e" @@ "d/g01" :> "d" @@ "d/g04" :> "d" @@ "d/g07" :> "d" @@ "d/g10" :> "d" @@ "d/g13" :> "d" @@ "d/g16" :> "d" @@ "d/g19" :> "d" @@ "d/g22" :> "d" @@ "f00" :> "." @@ "f03" :> "." @@ "f06" :> "." @@ "f09" :> "." @@ "f12" :> "." @@ "f15" :> "." @@ "f18" :> "." @@ "f21" :> "." @@ "lnk" :> "."
+Bconc == "." :> "." @@ "d" :> "d" @@ "d/e" :> "e" @@ "d/e/h02" :> "h02" @@ "d/e/h05" :> "h05" @@ "d/e/h08" :> "h08" @@ "d/e/h11" :> "h11" @@ "d/e/h14" :> "h14" @@ "d/e/h17" :> "h17" @@ "d/e/h20" :> "h20" @@ "d/e/h23" :> "h23" @@ "d/g01" :> "g01" @@ "d/g04" :> "g04" @@ "d/g07" :> "g07" @@ "d/g10" :> "g10" @@ "d/g13" :> "g13" @@ "d/g16" :> "g16" @@ "d/g19" :> "g19" @@ "d/g22" :> "g22" @@ "f00" :> "f00" @@ "f03" :> "f03" @@ "f06" :> "f06" @@ "f09" :> "f09" @@ "f12" :> "f12" @@ "f15" :> "f15" @@ "f18" :> "f18" @@ "f21" :> "f21" @@ "lnk" :> "lnk"
 (* last path component of every path used in any universe *)
 BaseAll == [p \in {".", "a", "ab", "b", "c", "d", "d/a", "d/b", "d/c", "d/e", "d/e/a", "d/f", "e", "e/a", "f", "l", "ro", "ro/f", "s", "x", "x/f", "y", "z", "k", "d/l", "dev", "+p", "-d", "d-", "g", "ba", ".h", "Z", "a b", "data", "data-old", "data.txt", "data/inner"} |->
    CASE p \in {"d/a", "d/e/a", "e/a"} -> "a" [] p = "d/b" -> "b" [] p = "d/c" -> "c" [] p = "d/e" -> "e"
